@@ -106,7 +106,9 @@ class RecomputingDict(MutableMapping[RuleKey, AbstractStrategy]):
                         continue
                     start_label = self.classdb.get_label(rule.comb_class)
                     nonempty_children = tuple(
-                        c for c in rule.children if not self.classdb.is_empty(c)
+                        c
+                        for c in rule.children
+                        if not (rule.possibly_empty and self.classdb.is_empty(c))
                     )
                     end_labels = tuple(
                         sorted(map(self.classdb.get_label, nonempty_children))
